@@ -60,6 +60,12 @@ func registerIntrinsics(in *Interp) {
 		in.atomVars[strings.Trim(n, "|")] = true
 		return &SymStr{Atom: in.B.Var(n, sym.BVSort(32))}
 	}
+	I["vLine"] = func(in *Interp, a []Value, _ ssa.CallInstruction) Value {
+		return in.NewLine(in.nondetName(str(a[0])))
+	}
+	I["vIntSame"] = func(in *Interp, a []Value, _ ssa.CallInstruction) Value {
+		return in.B.Var("|"+str(a[0])+"|", sym.BVSort(in.WordBits))
+	}
 	I["vRegister"] = func(in *Interp, a []Value, _ ssa.CallInstruction) Value { return nil }
 	I["vParamInt"] = func(in *Interp, a []Value, _ ssa.CallInstruction) Value {
 		v, ok := in.Params[str(a[0])]
